@@ -8,10 +8,10 @@ CONSTANTS
   MaxWrites = 1
   Reorgs = FALSE
   MaxJump = 3
-  EmitOn = FALSE
+  EmitOn = TRUE
   SL = 500000
   TL = 1500000
-  KeepRoots = TRUE
+  KeepRoots = FALSE
 VIEW mview
 INVARIANTS TypeOK MTypeOK Balanced PruneSafe NoCrash
 CHECK_DEADLOCK FALSE
